@@ -22,7 +22,7 @@ def run(ctx):
     vals, groups = fam.generate(ctx, w)
     st = fam.replay_groups(ctx, vh, vals, groups, fam.SCALAR_KINDS, fam.C18_CARRIERS)
     ctx.log("replayed %d scalar vectors (%d groups) through %d real calls: %d mismatches" % (st["vectors"], st["groups"], st["calls"], st["mismatches"]))
-    ag = fam.record_agree(ctx, vh, 8000 if quick else 200000)
+    ag = fam.record_agree(ctx, vh, 30000 if quick else 200000)
     ctx.log("judged %d recorded (value, rule list) pairs over %d real calls: %d rejected" % (ag["records"], ag["calls"], ag["rejected"]))
     sample2 = ag.pop("sample")
     cov = dict(
